@@ -615,7 +615,8 @@ class Impl:
         s = str(e)
         for pat, why in (("do not match", "dims"), ("already exists", "exists"), ("does not exist", "exists"),
                          ("clashes", "clash"), ("additional input", "ufunc"), ("missing value", "ufunc"),
-                         ("Invalid mode", "mode"), ("must be positive integers", "dims")):
+                         ("Invalid mode", "mode"), ("positive integers", "dims"),
+                         ("size 0 inputs", "size0"), ("zero-size array", "empty")):
             if pat in s:
                 return Reject("Value " + why)
         raise e
@@ -752,6 +753,8 @@ class Impl:
                     layer.data = val  # the property setter is set_cells
                 else:
                     layer.set_cells(val, cond)
+            except ValueError as e:
+                raise self.value_error(e) from None  # np.vectorize(condition) on a layer without entries
             except TypeError as e:
                 if "Cannot cast" in str(e):
                     raise Reject("Type") from None  # np.copyto refuses a cast that is not same_kind
@@ -775,6 +778,8 @@ class Impl:
                     layer.data = arr
                 else:
                     layer.set_cells(arr, cond)
+            except ValueError as e:
+                raise self.value_error(e) from None
             except TypeError as e:
                 if "Cannot cast" in str(e):
                     raise Reject("Type") from None
@@ -886,7 +891,10 @@ class Impl:
         if k == "agg":
             layer, dt = self.layer(int(w[1]))
             f = {"sum": np.sum, "max": np.max, "min": np.min}[w[2]]
-            v = layer.aggregate(f) if new else layer.aggregate_property(f)
+            try:
+                v = layer.aggregate(f) if new else layer.aggregate_property(f)
+            except ValueError as e:
+                raise self.value_error(e) from None  # max / min of a layer without entries
             return f"ok v={self.canon('int' if (dt == 'bool' and w[2] == 'sum') else dt, v)}"
         if k in ("place", "move", "remove"):
             return self.agent_op(k, w)
@@ -1344,6 +1352,8 @@ class Gen:
 
     def coord(self, dims, oob=0.04):
         R = self.R
+        if 0 in dims:
+            return tuple(R.randrange(max(d, 1)) for d in dims)  # a layer without entries: every index is out of range
         if R.random() < oob:
             c = [R.randrange(d) for d in dims]
             i = R.randrange(len(dims))
@@ -1369,6 +1379,8 @@ class Gen:
         ids = list(range(len(self.layers)))
         if not ids:
             return None
+        if getattr(self, "force_lid", None) is not None:
+            return self.force_lid
         if self.kind == "new" and prefer_user and len(ids) > 1 and R.random() < 0.93:
             ids = ids[1:]
         if self.rejecting and R.random() < 0.1:
@@ -1412,6 +1424,21 @@ class Gen:
                     dims = dims[::-1]
             else:
                 dims = self.dims
+            if force_name is None and R.random() < (0.2 if self.rejecting else 0.1):
+                # a layer without entries: a zero dimension (new: accepted by np.full, and np.vectorize — conditions,
+                # Python functions — then refuses it; legacy: the constructor refuses)
+                dims = list(dims)
+                dims[R.randrange(len(dims))] = 0
+                self.emit(f"new {name} {'x'.join(map(str, dims))} {dt} {d}")
+                if self.kind == "new":
+                    self.layers.append(dict(name=name, dtype=dt, dims=tuple(dims), att=False))
+                    self.force_lid = len(self.layers) - 1
+                    for f in R.sample([self.op_setcells, self.op_setcells, self.op_modify, self.op_modify, self.op_modify,
+                                       self.op_read, self.op_read, self.op_cell2, self.op_handle, self.op_lset],
+                                      R.randrange(2, 6)):
+                        f()
+                    self.force_lid = None
+                return
             self.emit(f"new {name} {'x'.join(map(str, dims))} {dt} {d}")
             self.layers.append(dict(name=name, dtype=dt, dims=tuple(dims), att=False))
             return
@@ -1583,8 +1610,10 @@ class Gen:
                 else:
                     self.muls += 1
             tok = self.tval(mul=(op == "mul"))
-            self.emit(f"modify {i} {kind} {op} {tok} {self.cond(dt)}")
-            if i < len(self.layers):
+            cond = self.cond(dt)
+            self.emit(f"modify {i} {kind} {op} {tok} {cond}")
+            refused = i < len(self.layers) and 0 in self.layers[i]["dims"] and (kind == "fn" or cond != "-")
+            if i < len(self.layers) and not refused:  # (np.vectorize refuses a layer without entries: no new dtype)
                 nd = spec_result_dtype(op, dt, tok)
                 if nd is not None:
                     self.layers[i]["dtype"] = nd
@@ -1613,7 +1642,8 @@ class Gen:
             h, dims, dt = R.choice(self.handles)
             name = R.choice(GOOD_NAMES)
             self.emit(f"fromdata {name} {h}")
-            self.layers.append(dict(name=name, dtype=dt, dims=tuple(dims), att=False))
+            if 0 not in dims:  # (from_data of an array without entries: IndexError, no layer)
+                self.layers.append(dict(name=name, dtype=dt, dims=tuple(dims), att=False))
             return
         if not self.handles or R.random() < 0.35:
             i = self.lid()
@@ -1779,9 +1809,23 @@ def tags(sc, obs):
     yield "impl:" + w0[1]
     yield "ndim:" + str(len(w0[2].split("x")))
     seen = set()
+    zero = set()  # ids of layers without entries
     for l, o in zip(sc.lines[1:], obs[1:]):
         w = l.split()
         t = ["op:" + w[0]]
+        if w[0] == "new" and "0" in w[2].split("x"):
+            t.append("size0:new:" + ("ok" if o.startswith("ok") else "refused"))
+            if o.startswith("ok id="):
+                zero.add(o.split("=")[1])
+        if w[0] in ("setcells", "setfrom", "modify", "lsel", "agg", "cset2", "cget2", "attach", "dump", "lset", "lget", "grab") \
+                and (w[2] if w[0] == "grab" else w[1]) in zero:
+            how = ("ok" if o.startswith("ok") else o[4:].replace(" ", "-"))
+            form = ""
+            if w[0] == "modify":
+                form = ":" + w[2] + (":cond" if w[5] != "-" else "")
+            elif w[0] in ("setcells", "setfrom"):
+                form = ":cond" if w[3] != "-" else ""
+            t.append(f"size0:{w[0]}{form}:{how}")
         if o.startswith("err"):
             t.append("reject:" + w[0] + ":" + o[4:].replace(" ", "-"))
         if w[0] == "select" and o.startswith("ok"):
